@@ -637,7 +637,8 @@ def gen_tx(rng, mdib, counter):
     opers = by_type('SetValueOperationDescriptor', 'SetStringOperationDescriptor', 'ActivateOperationDescriptor',
                     'SetContextStateOperationDescriptor', 'SetAlertStateOperationDescriptor')
     rts = by_type('RealTimeSampleArrayMetricDescriptor')
-    ctxd = by_type('PatientContextDescriptor', 'LocationContextDescriptor')
+    ctxd = by_type('PatientContextDescriptor', 'LocationContextDescriptor', *CTX_KINDS)
+    sysctx = by_type('SystemContextDescriptor')
     added = [x.Handle for x in d.objects if x.Handle.startswith('verif.')]
 
     def some(lst, lo=1, hi=3):
@@ -659,6 +660,11 @@ def gen_tx(rng, mdib, counter):
         existing = [s.Handle for s in mdib.context_states.objects]
         if existing and rng.random() < 0.5:
             tx = {'tx': 'context_update', 'handles': some(existing, 1, 2), 'assoc': rng.choice(['Assoc', 'Dis', 'No'])}
+        elif rng.random() < 0.3:
+            # add_state of an application-made context state container, with or without a Handle
+            counter[0] += 1
+            tx = {'tx': 'context_add', 'descriptor': rng.choice(ctxd),
+                  'state_handle': None if rng.random() < 0.6 else f'verif.cs.{counter[0]}'}
         else:
             tx = {'tx': 'context_new', 'descriptor': rng.choice(ctxd)}
     elif r < 0.68 and (conds or signals):
@@ -700,7 +706,17 @@ def gen_tx(rng, mdib, counter):
                                   'parent': parent, 'with_state': rng.random() < 0.8, 'adjust': rng.random() < 0.8,
                                   'set': ({'Source': some(metrics, 0, 2)} if kind == 'AlertConditionDescriptor' else
                                           {'ConditionSignaled': rng.choice([*conds, None])} if kind == 'AlertSignalDescriptor' and conds else {})})
-            elif s < 0.95 and added:
+            elif s < 0.87 and sysctx:
+                # a new context descriptor, its state container made by the application (with / without Handle)
+                counter[0] += 1
+                steps.append({'do': 'add_ctx', 'kind': rng.choice(CTX_KINDS), 'handle': f'verif.{counter[0]}', 'parent': rng.choice(sysctx),
+                              'state': rng.choice(['none', 'no_handle', 'no_handle', 'handle']), 'state_handle': f'verif.cs.{counter[0]}',
+                              'via': rng.choice(['add_descriptor', 'add_state'])})
+            elif s < 0.90 and ctxd:
+                counter[0] += 1
+                steps.append({'do': 'add_ctx_state', 'handle': rng.choice(ctxd),
+                              'state_handle': None if rng.random() < 0.6 else f'verif.cs.{counter[0]}'})
+            elif s < 0.96 and added:
                 steps.append({'do': 'remove', 'handle': rng.choice(added)})
             elif channels and rng.random() < 0.3:
                 steps.append({'do': 'remove', 'handle': rng.choice(channels)})
@@ -754,6 +770,9 @@ def _add_commit_fault(rng, mdib, steps, conds, signals, metrics, ctxd, counter, 
             steps.append({'do': 'ctx_collision', 'descriptor': rng.choice(others), 'state_handle': sh})
 
 
+CTX_KINDS = ['EnsembleContextDescriptor', 'WorkflowContextDescriptor', 'OperatorContextDescriptor', 'MeansContextDescriptor']
+
+
 class _Abort(Exception):
     pass
 
@@ -780,6 +799,13 @@ def run_tx(mdib, tx):
         elif kind == 'context_new':
             with mdib.context_state_transaction() as tr:
                 st = tr.mk_context_state(tx['descriptor'], set_associated=True)
+                if tx['abort']:
+                    raise _Abort
+        elif kind == 'context_add':
+            with mdib.context_state_transaction() as tr:
+                st = mdib.data_model.mk_state_container(mdib.descriptions.handle.get_one(tx['descriptor']))
+                st.Handle = tx['state_handle']
+                tr.add_state(st)
                 if tx['abort']:
                     raise _Abort
         elif kind == 'context_update':
@@ -826,6 +852,24 @@ def run_tx(mdib, tx):
                         tr.add_descriptor(dc, adjust_descriptor_version=s.get('adjust', True), state_container=st)
                         if s.get('rename_to'):
                             dc.Handle = s['rename_to']
+                    elif s['do'] == 'add_ctx':
+                        parent = mdib.descriptions.handle.get_one(s['parent'])
+                        dc = mdib.data_model.mk_descriptor_container(getattr(q, s['kind']), handle=s['handle'], parent_descriptor=parent)
+                        st = None
+                        if s['state'] != 'none':
+                            st = mdib.data_model.mk_state_container(dc)
+                            st.Handle = s['state_handle'] if s['state'] == 'handle' else None
+                        if s['via'] == 'add_descriptor':
+                            tr.add_descriptor(dc, state_container=st)
+                        else:
+                            tr.add_descriptor(dc)
+                            if st is not None:
+                                tr.add_state(st)
+                    elif s['do'] == 'add_ctx_state':
+                        dc = tr.get_descriptor(s['handle'])
+                        st = mdib.data_model.mk_state_container(dc)
+                        st.Handle = s['state_handle']
+                        tr.add_state(st)
                     elif s['do'] == 'remove':
                         tr.remove_descriptor(s['handle'])
                     elif s['do'] == 'add_state_existing':
@@ -857,6 +901,79 @@ LAST_ERROR = [None]
 STAGE = [None]       # 'commit' once the body of a descriptor transaction is through: an exception after that comes from the commit
 
 
+def late_write(container, tables, seen):
+    """An application edits, in place, a value it was handed. `container` is not one of the stored objects, so this must
+    never be visible in the MDIB. Every list-valued result of a key function of the tables is changed (deterministically)."""
+    n = 0
+    for t in tables:
+        for idx in t._idx_defs.values():  # noqa: SLF001
+            try:
+                v = idx._get_key_func(container)  # noqa: SLF001
+            except Exception:  # noqa: BLE001
+                continue
+            if isinstance(v, list) and id(v) not in seen:
+                seen.add(id(v))
+                if v:
+                    v.pop()
+                else:
+                    v.append('verif.late')
+                n += 1
+    return n
+
+
+def _tables(mdib):
+    return (mdib.descriptions, mdib.states, mdib.context_states)
+
+
+def _stored_ids(mdib):
+    return {id(o) for t in _tables(mdib) for o in t.objects}
+
+
+def provider_reads(mdib, ctx=None):
+    """What happens between two transactions of a provider: serialisation for Get requests (reconstruct_*), the
+    application reading entities and the last transaction result and editing what it got. None of it is a transaction,
+    so none of it may change what the lookups / a scan return. Returns the number of late writes."""
+    from sdc11073.xml_types import pm_qnames as q
+    mdib.reconstruct_mdib_with_context_states()
+    mdib.reconstruct_mdib()
+    stored = _stored_ids(mdib)
+    seen = set()
+    n = 0
+    handed = []
+    tr = getattr(mdib, 'transaction', None)
+    if tr is not None:
+        for name in ('descr_updated', 'descr_created', 'descr_deleted'):
+            handed.extend(getattr(tr, name, []) or [])
+        try:
+            handed.extend(tr.all_states())
+        except Exception:  # noqa: BLE001
+            pass
+    for d in list(mdib.descriptions.NODETYPE.get(q.AlertConditionDescriptor) or [])[:6]:
+        try:
+            e = mdib.entities.by_handle(d.Handle)
+        except KeyError:
+            continue          # descriptor without state (left behind by a commit that failed half-way)
+        if e is not None:
+            handed.append(e.descriptor)
+    for c in handed:
+        if id(c) not in stored:
+            n += late_write(c, _tables(mdib), seen)
+    if ctx is not None:
+        ctx.count('provider-late-writes', n)
+    return n
+
+
+def provider_step(mdib, tx, ctx=None):
+    """one transaction, the oracle, the reads in between, the oracle again -> (result, findings)"""
+    res = run_tx(mdib, tx)
+    probs = _mdib_findings(mdib, 'provider')
+    if not probs:
+        provider_reads(mdib, ctx)
+        probs = [(sig, p + ' [after serialisation (reconstruct_mdib*) / late writes into handed-out copies]')
+                 for sig, p in _mdib_findings(mdib, 'provider')]
+    return res, probs
+
+
 def _mdib_findings(mdib, side):
     """[(signature, message)] of the scan oracle on the three tables; signature names side, table and index"""
     return [(f'lookup-disagrees-with-scan:{side}:{where}', f'{side}:{msg}') for where, msg in mk_oracle.mdib_problem_items(mdib)]
@@ -878,12 +995,11 @@ def run_provider_part(ctx):
             for _ in range(ctx.n(40, 150)):
                 tx = gen_tx(rng, mdib, counter)
                 script.append(tx)
-                res = run_tx(mdib, tx)
+                res, probs = provider_step(mdib, tx, ctx)
                 ctx.count(f'provider-tx:{tx["tx"]}:{res}')
                 if tx['tx'] == 'descriptor':
                     for s in tx['steps']:
                         ctx.count('provider-descr-step:' + s['do'] + (':' + ','.join(sorted(s.get('set', {}))) if s.get('set') else '') + (':renamed' if s.get('rename_to') else ''))
-                probs = _mdib_findings(mdib, 'provider')
                 ctx.case({'file': fi, 'rep': rep, 'n': len(script), 'tx': tx}, nontrivial=res == 'ok' or res.startswith('err-in-commit'),
                          sample={'file': os.path.basename(path), 'tx': tx, 'result': res, 'table_problems': [p for _, p in probs]} if (fi, rep, len(script)) == (0, 0, 3) else None)
                 if probs:
@@ -920,6 +1036,9 @@ def run_real_tables_part(ctx):
                 table.remove_object(dup)
 
 
+OBSERVABLES = ['metrics_by_handle', 'waveform_by_handle', 'alert_by_handle', 'context_by_handle', 'component_by_handle',
+               'operation_by_handle', 'new_descriptors_by_handle', 'updated_descriptors_by_handle',
+               'deleted_descriptors_by_handle', 'deleted_states_by_handle', 'description_modifications']
 NS_MSG = 'http://standards.ieee.org/downloads/11073/11073-10207-2017/message'
 NS_DOM = 'http://standards.ieee.org/downloads/11073/11073-10207-2017/participant'
 NS_XSI = 'http://www.w3.org/2001/XMLSchema-instance'
@@ -1020,7 +1139,34 @@ def run_consumer_part(ctx, script=None, path=None):
         todo = list(script) if script is not None else [None] * ctx.n(60, 400)
         last_dmr = None         # the last DescriptionModificationReport that was delivered (template for crafted reports)
 
+        # the application: observes everything the consumer mdib publishes and keeps what it receives
+        from sdc11073 import observableproperties
+        received = []
+
+        def on_value(value):
+            if value is not None:
+                received.append(value)
+        observed = [n for n in OBSERVABLES if hasattr(type(cons.mdib), n)]
+        observableproperties.bind(cons.mdib, **{n: on_value for n in observed})
+        ctx.count('consumer-observables-bound', len(observed))
+
+        def consumer_late_writes():
+            """the application edits (in place) the containers it received that are not the mdib's own objects"""
+            containers = []
+            for v in received:
+                if isinstance(v, dict):
+                    containers.extend(v.values())
+                elif hasattr(v, 'ReportPart'):
+                    for part in v.ReportPart:
+                        containers.extend(getattr(part, 'Descriptor', []) or [])
+                        containers.extend(getattr(part, 'State', []) or [])
+            received.clear()
+            stored = _stored_ids(cons.mdib)
+            seen = set()
+            return sum(late_write(c, _tables(cons.mdib), seen) for c in containers if id(c) not in stored)
+
         def deliver(w, tx, label):
+            received.clear()
             try:
                 cons.deliver(w)
                 dres = 'ok'
@@ -1029,6 +1175,12 @@ def run_consumer_part(ctx, script=None, path=None):
             ctx.count(f'consumer-report:{label}:{dres}')
             with cons.mdib.mdib_lock:
                 cp = _mdib_findings(cons.mdib, 'consumer')
+                if not cp:
+                    n = consumer_late_writes()
+                    ctx.count('consumer-late-writes', n)
+                    if n:
+                        cp = [(sig, p + ' [after the application edited the containers it had received from the observables]')
+                              for sig, p in _mdib_findings(cons.mdib, 'consumer')]
             ctx.case({'loopback': os.path.basename(path), 'n': len(txs), 'report': label, 'v': w.mdib_version,
                       'crafted': tx.get('edits')}, nontrivial=True,
                      sample={'tx': tx, 'report': label, 'consumer_table_problems': [p for _, p in cp]}
@@ -1059,6 +1211,22 @@ def run_consumer_part(ctx, script=None, path=None):
             res = run_tx(prov.mdib, tx)
             ctx.count(f'loopback-tx:{tx["tx"]}:{res}' + (':same-version' if tx.get('adjust') is False else ''))
             pp = _mdib_findings(prov.mdib, 'provider')
+            if not pp:
+                # between two transactions: Get requests of the consumer (serialisation of the provider mdib), local reads
+                try:
+                    k = len(txs) % 3
+                    if k == 0:
+                        cons.sdc.get_service_client.get_mdib()
+                    elif k == 1:
+                        cons.sdc.context_service_client.get_context_states()
+                    else:
+                        cons.sdc.get_service_client.get_md_state()
+                    ctx.count(f'loopback-get-request:{("GetMdib", "GetContextStates", "GetMdState")[k]}:ok')
+                except Exception as ex:  # noqa: BLE001
+                    ctx.count(f'loopback-get-request:err {type(ex).__name__}')
+                provider_reads(prov.mdib, ctx)
+                pp = [(sig, p + ' [after Get request / serialisation / late writes into handed-out copies]')
+                      for sig, p in _mdib_findings(prov.mdib, 'provider')]
             if pp:
                 found.append((pp[0][0], '; '.join(p for _, p in pp[:4])))
                 ctx.fail(found[-1][0], found[-1][1], {'kind': 'loopback', 'file': path, 'txs': list(txs)})
@@ -1190,10 +1358,13 @@ def replay(ctx, obj):
         return any(s == sig for s, _ in impl.failures)
     if kind == 'provider':
         mdib = _load_mdib(case['file'])
+        probs = []
         for tx in case['txs']:
-            print(tx, '->', run_tx(mdib, tx))
-        probs = mk_oracle.mdib_problems(mdib, 'provider')
-        print('\n'.join(probs))
+            res, probs = provider_step(mdib, tx)
+            print(tx, '->', res)
+            if probs:
+                break
+        print('\n'.join(p for _, p in probs))
         return bool(probs)
     if kind == 'real-table':
         mdib = _load_mdib(MDIB_FILES[0])
